@@ -15,7 +15,10 @@ import (
 	"runtime"
 	"runtime/debug"
 	"sort"
+	"strings"
 	"time"
+
+	"verifsim/simrt"
 )
 
 // Op is one generated operation; the fields used depend on the engine.
@@ -185,6 +188,9 @@ func main() {
 		os.Exit(cmdProbe(*file))
 	case "gen":
 		e := engines[propEngine[*prop]]
+		if *prop == "C11" && *seed%8 == 7 {
+			e = engines["simple"]
+		}
 		emit(e.Gen(*prop, *seed, *tier))
 		os.Exit(0)
 	}
@@ -225,12 +231,21 @@ func cmdRun(prop, tier string, seed, stride uint64, count int, budget float64, p
 		if pj != nil {
 			fmt.Fprintf(pj, "%d\n", s)
 		}
+		e := e
+		if prop == "C11" && s%8 == 7 {
+			// C11 also covers the simple server: every 8th run drives it with the
+			// boundary-dense / malformed-handle request generator of C17
+			e = engines["simple"]
+		}
 		spec := e.Gen(prop, s, tier)
 		if spec == nil {
 			break // enumerated space exhausted
 		}
 		res := e.Exec(spec)
 		sum.Runs++
+		if spec.Engine == "simple" && prop == "C11" {
+			sum.Counters["simple_server_runs"]++
+		}
 		if t, ok := spec.Knobs["total"]; ok {
 			sum.Counters["space_size"] += t // divided by the number of runs in the driver
 		}
@@ -243,6 +258,24 @@ func cmdRun(prop, tier string, seed, stride uint64, count int, budget float64, p
 		sum.Inconcl += res.Inconcl
 		for k, v := range res.Counters {
 			sum.Counters[k] += v
+		}
+		for k, v := range simrt.TakeProbes() {
+			sum.Counters[k] += v
+		}
+		// which scheduling policy / starvation profile / clock mode this run used
+		sum.Counters["sched_policy_"+spec.Sched.Policy]++
+		for _, st := range spec.Sched.Starve {
+			switch {
+			case strings.Contains(st, "wal.go:37"):
+				sum.Counters["fault_stalled_logger"]++
+			case strings.Contains(st, "wal.go:38"):
+				sum.Counters["fault_stalled_installer"]++
+			case strings.Contains(st, "shrinker"):
+				sum.Counters["fault_stalled_shrinker"]++
+			}
+		}
+		if spec.Sched.Clock == 2 {
+			sum.Counters["fault_clock_jumps"]++
 		}
 		if len(fps) < 200000 {
 			fps[res.Fingerprint] = true
@@ -323,9 +356,16 @@ func loadSpec(file string) *Spec {
 	return &s
 }
 
+func engineOfSpec(spec *Spec) Engine {
+	if e, ok := engines[spec.Engine]; ok {
+		return e
+	}
+	return engineFor(spec.Property)
+}
+
 func cmdReplay(file string) int {
 	spec := loadSpec(file)
-	e := engineFor(spec.Property)
+	e := engineOfSpec(spec)
 	res := e.Exec(spec)
 	if res.Viol != nil {
 		emit(map[string]interface{}{"type": "replayed", "violation": res.Viol, "fingerprint": res.Fingerprint})
@@ -359,7 +399,7 @@ type opRef struct{ c, i int }
 
 func cmdShrink(file, out string, budget float64) int {
 	spec := loadSpec(file)
-	e := engineFor(spec.Property)
+	e := engineOfSpec(spec)
 	if spec.Violation == nil {
 		fmt.Fprintln(os.Stderr, "shrink: file has no violation")
 		return 2
